@@ -210,6 +210,60 @@ theorem eff_absent_consults (c : Cfg) (m : OptMap) (spec gen : Name) (opts : Kvs
     effSpecific c m spec gen opts = some o := by
   simp [effSpecific, h, hm, ho]
 
+/-! ## nested option dicts and memoised reads -/
+
+/-- A phase that was given a dict - the EMPTY dict included - never consults the call's top-level options: whatever
+    they are, the phase sees the same thing.  (`copy_options={}` = plain thread/library defaults.) -/
+theorem phase_given_ignores_top (c : Cfg) (m : OptMap) (top top' : Kvs) (d : Kvs) (n : Name) :
+    phaseView c m top (some d) n = phaseView c m top' (some d) n := rfl
+
+/-- in particular `{}`: the phase sees exactly the thread default of every option -/
+theorem phase_empty_is_defaults (c : Cfg) (m : OptMap) (top : Kvs) (n : Name) :
+    phaseView c m top (some []) n = (alook n m).getD c.noneVal := by
+  simp [phaseView, phaseOptions, getOption, alook]
+
+/-- only `None` inherits: then the phase sees what the top level sees -/
+theorem phase_none_inherits (c : Cfg) (m : OptMap) (top : Kvs) (n : Name) :
+    phaseView c m top none n = getOption c m n top := rfl
+
+/-- `{}` and `None` are different things as soon as the top level passes the option -/
+example : phaseView realCfg realCfg.defaults [(7, 0)] (some []) 7 = 10 ∧
+          phaseView realCfg realCfg.defaults [(7, 0)] none 7 = 0 := by decide
+
+theorem memo_eff_inv {α : Type} (f : Val → α) (cache : List (Nat × α)) (r : Req)
+    (h : ∀ k a, alook k cache = some a → a = f k) :
+    (memoStep keyEff f cache r).2 = f r.eff ∧ ∀ k a, alook k (memoStep keyEff f cache r).1 = some a → a = f k := by
+  unfold memoStep
+  cases hl : alook (keyEff r) cache with
+  | some a => exact ⟨h _ _ hl, h⟩
+  | none =>
+    refine ⟨rfl, fun k a hk => ?_⟩
+    by_cases e : k = keyEff r
+    · subst e
+      rw [alook_aput_same] at hk
+      cases hk
+      rfl
+    · rw [alook_aput_ne _ _ e] at hk
+      exact h k a hk
+
+/-- **A memo keyed by the EFFECTIVE option value is transparent**: for every sequence of reads (any raw arguments,
+    any thread defaults changing between the reads: blocks entered, left, left by exception, set_options) the answers
+    are those of no memo at all. -/
+theorem memo_effective_transparent {α : Type} (f : Val → α) : ∀ (rs : List Req) (cache : List (Nat × α)),
+    (∀ k a, alook k cache = some a → a = f k) → memoRun keyEff f rs cache = rs.map (fun r => f r.eff)
+  | [], _, _ => rfl
+  | r :: rs, cache, h => by
+    obtain ⟨h1, h2⟩ := memo_eff_inv f cache r h
+    simp only [memoRun, List.map_cons, h1]
+    rw [memo_effective_transparent f rs _ h2]
+
+/-- **A memo keyed by the RAW argument is not**: two reads with the argument left out, the thread default changed in
+    between (0 then 1): the second read answers with the first read's default. -/
+theorem memo_raw_not_transparent :
+    memoRun keyRaw (fun v => v) [⟨none, 0⟩, ⟨none, 1⟩] [] = [0, 0] ∧
+    [(⟨none, 0⟩ : Req), ⟨none, 1⟩].map (fun r => r.eff) = [0, 1] ∧
+    memoRun keyEff (fun v => v) [⟨none, 0⟩, ⟨none, 1⟩] [] = [0, 1] := by decide
+
 /-! ## threads -/
 
 /-- A whole program run by thread `t` leaves the dict of every other thread untouched. -/
